@@ -7,8 +7,9 @@
  *   OC         output chunk size: every time the output space is used up a fresh OC-byte object is supplied
  *   EOSMODE    0: end_of_stream is set together with the last chunk, 1: announced late on an extra empty call
  *   FLUSH1     flush value used while chunk 1 is being fed (NO_FLUSH / SYNC_FLUSH / FULL_FLUSH); later calls NO_FLUSH
- *   WRAP       gzip_flag     KMAX  bound on the number of isal_deflate calls
+ *   WRAP       gzip_flag     KMAX  bound on the number of isal_deflate calls     TABLE 1 static / 0 default (n = 0 only)
  *   CHECK14    1: additionally check the flush point after chunk 1 (C14)
+ *   CHECK05    1: additionally check that needed match history is retained internally (C05 stale input)
  *   DFL_CLASSES / DFL_TOKLENS   code-length class vector (deflate_shim.h); EOB writes carry class 0
  * Symbolic: all input bytes.
  *
@@ -26,6 +27,12 @@
 #define NTOT (C1 + C2 + C3)
 #ifndef FLUSH1
 #define FLUSH1 0
+#endif
+#ifndef TABLE
+#define TABLE 1
+#endif
+#ifndef CHECK05
+#define CHECK05 0
 #endif
 #ifndef CHECK14
 #define CHECK14 0
@@ -52,6 +59,7 @@ static struct isal_zstream *s;
 static int calls;
 static uint32_t flush_point; /* full_len when the flushing call returned with avail_in==0 && avail_out>0 */
 static int flush_seen, flush_state;
+static uint32_t hist_base; /* CHECK05: input offset where the current match history starts */
 
 static void
 collect(uint32_t from_avail)
@@ -91,9 +99,29 @@ one_call(void)
         VASSERT(s->total_in != ti || s->total_out != to || (int) s->internal_state.state != st || (ai == 0 && !s->end_of_stream && s->flush == NO_FLUSH),
                 "every call consumes input, produces output or changes state (unless it was given nothing to do)");
         collect(ao);
+#if CHECK05
+        /* C05 (stale input): when the call returns and the stream goes on with match history (has_hist ==
+         * IGZIP_HIST), every byte the match finder may look back to must live in the library's own buffer: the
+         * caller is free to release or overwrite the chunk (the harness free()s it).  With <= 3 bytes nothing is
+         * ever looked up, so a missing history copy would go unnoticed by the deallocated-object check alone.
+         * (Once end_of_stream is announced with nothing left to feed the library rightly drops the history.) */
+        if (s->internal_state.state != ZSTATE_END && s->internal_state.state != ZSTATE_TRL && s->internal_state.state != ZSTATE_TMP_END &&
+            s->internal_state.state != ZSTATE_TMP_TRL && s->internal_state.has_hist == IGZIP_HIST && s->avail_in == 0 && !s->end_of_stream) {
+                uint32_t unproc = s->internal_state.b_bytes_valid - s->internal_state.b_bytes_processed;
+                uint32_t P = s->total_in - unproc; /* bytes already compressed; < window size here */
+                VASSERT(unproc <= s->total_in && P <= NTOT, "buffer accounting");
+                VASSERT(s->internal_state.b_bytes_processed >= P - hist_base, "history since the last reset is retained in the internal buffer");
+                for (uint32_t i = hist_base; i < P; i++)
+                        VASSERT(s->internal_state.buffer[s->internal_state.b_bytes_processed - (P - i)] == I.data[i],
+                                "retained history equals the consumed input");
+        }
+        if (s->internal_state.has_hist == IGZIP_NO_HIST)
+                hist_base = s->total_in - (s->internal_state.b_bytes_valid - s->internal_state.b_bytes_processed);
+#endif
 #if defined(REPLAY) && defined(DFL_DEBUG)
-        printf("call %d: flush=%d eos=%d in %u->%u out %u->%u state %d->%d\n", calls, s->flush, s->end_of_stream, ai, s->avail_in, ao, s->avail_out, st,
-               s->internal_state.state);
+        printf("call %d: flush=%d eos=%d in %u->%u out %u->%u state %d->%d has_hist=%d valid=%u processed=%u total_in=%u\n", calls, s->flush,
+               s->end_of_stream, ai, s->avail_in, ao, s->avail_out, st, s->internal_state.state, s->internal_state.has_hist,
+               s->internal_state.b_bytes_valid, s->internal_state.b_bytes_processed, s->total_in);
 #endif
 }
 
@@ -104,8 +132,10 @@ harness(void)
         static struct isal_zstream S; /* static object: see wmemset in deflate_common.h */
         s = &S;
         isal_deflate_init(s);
+#if TABLE == 1
         int ret = isal_deflate_set_hufftables(s, (struct isal_hufftables *) 0, IGZIP_HUFFTABLE_STATIC);
         VASSERT(ret == COMP_OK, "set_hufftables(STATIC)");
+#endif
         s->gzip_flag = WRAP;
         s->avail_out = 0;
         s->next_out = 0;
@@ -169,6 +199,16 @@ harness(void)
         printf("\n");
 #endif
 
+#if TABLE == 0
+        /* default (dynamic) table: only the empty input is decided (see C01); no byte is symbolic, the whole
+         * reference decoder runs on concrete data: dynamic header(s), markers, final block, trailer */
+        {
+                static uint8_t dec0[1];
+                dfl_check_stream(full, full_len, WRAP, I.data, NTOT, dec0, 15);
+        }
+        VREACHED();
+        return;
+#endif
         /* ---- the concatenated output decodes to the concatenated input.
          * Expected block structure (guided decoder, see deflate_common.h):
          *   no flush:   FIXED(all literals) [+ empty final FIXED]
